@@ -200,3 +200,18 @@ Proof.
   - rewrite app_nil_r. symmetry. apply firstn_all2. lia.
   - rewrite IH by (rewrite upd_length; lia). rewrite firstn_S_upd by lia. rewrite <- app_assoc. reflexivity.
 Qed.
+
+(* symbolic execution of two programs that differ only in how they nest their binds: destruct the runs of the
+   atomic programs and the tests, in order *)
+Ltac crunch :=
+  repeat (rs; match goal with
+          | |- context [match run ?f ?p ?s with _ => _ end] =>
+              lazymatch p with
+              | Bind _ _ => fail
+              | Ret _ => fail
+              | Fail _ => fail
+              | (if _ then _ else _) => fail
+              | _ => destruct (run f p s) as [[? ?]|?]
+              end
+          | |- context [if ?c then _ else _] => destruct c
+          end); rs; try reflexivity.
